@@ -1223,6 +1223,34 @@ def gen_rules():
         if not mm or mm.group(2) not in states:
             raise TranslateError(f"State::{fn} has an unexpected shape")
         out += [f"/-- `State::{fn}` -/", f"def state_{fn} (state : Nat) : Bool := state {'!=' if mm.group(1) == '!=' else '=='} {states.index(mm.group(2))}", ""]
+    # MultiPattern::reparse: the status decision (with the repair of F16) and Status' order
+    statuses = enum_variants(psrc, "Status")
+    if statuses != ["Unchanged", "Update", "Rescore"]:
+        raise TranslateError(f"Status variants are {statuses}")
+    rb = fn_bodies(psrc).get("reparse", [None])[0]
+    ws = lambda t: re.sub(r"\s+", "", t)
+    m1 = re.search(r"let old_status = self\.cols\[column\]\.1;\s*if (.*?)\{\s*self\.cols\[column\]\.1 = Status::(\w+);\s*\} else \{\s*self\.cols\[column\]\.1 = Status::(\w+);\s*\}", rb or "", re.S)
+    if not m1 or ws(m1.group(1)) != "append&&old_status!=Status::Rescore&&self.cols[column].0.atoms.last().map_or(true,can_append_to)":
+        raise TranslateError("MultiPattern::reparse: the first status decision has an unexpected shape")
+    m2 = re.search(r"let old_last = self\.cols\[column\]\.0\.atoms\.len\(\)\.checked_sub\(1\);\s*let old_normalizes = self\.cols\[column\]\.0\.atoms\.last\(\)\.map\(normalizes\);\s*"
+                   r"self\.cols\[column\]\s*\.0\s*\.reparse\(new_text, case_matching, normalization\);\s*"
+                   r"if self\.cols\[column\]\.1 == Status::(\w+)\s*&& matches!\(normalization, Normalization::(\w+)\)\s*&& old_normalizes == Some\((\w+)\)\s*\{\s*"
+                   r"let new_normalizes = old_last\s*\.and_then\(\|i\| self\.cols\[column\]\.0\.atoms\.get\(i\)\)\s*\.map\(normalizes\);\s*"
+                   r"if new_normalizes == Some\((\w+)\) \{\s*self\.cols\[column\]\.1 = Status::(\w+);\s*\}\s*\}\s*\}\s*$", rb or "", re.S)
+    if not m2:
+        raise TranslateError("MultiPattern::reparse: the normalization part (repair of F16) has an unexpected shape")
+    nb = fn_bodies(psrc).get("normalizes", [None])[0]
+    if nb is None or ws(nb) != "{atom.needle_text().chars().all(|c|nucleo_matcher::chars::normalize(c)==c)}":
+        raise TranslateError("fn normalizes has an unexpected shape")
+    sid = lambda k: statuses.index(k)
+    out += ["/-- `Status` variants in declaration order (`derive(Ord)`, `status()` takes the maximum): " + ", ".join(f"{i} = {k}" for i, k in enumerate(statuses)) + " -/",
+            f"def statuses : Nat := {len(statuses)}", "",
+            "/-- `MultiPattern::reparse`: the column's status afterwards.  `last_ok` = `atoms.last().map_or(true, can_append_to)` before the edit, `smart` = "
+            "`matches!(normalization, Normalization::" + m2.group(2) + ")`, `old_normalizes` / `new_normalizes` = `normalizes` (no character of the needle text is changed by "
+            "`chars::normalize`) of the last atom before the edit / of the atom in its place afterwards -/",
+            "def reparse_status (append : Bool) (old_status : Nat) (last_ok smart : Bool) (old_normalizes new_normalizes : Option Bool) : Nat :=",
+            f"  let first := if append && old_status != {sid('Rescore')} && last_ok then {sid(m1.group(2))} else {sid(m1.group(3))}",
+            f"  if first == {sid(m2.group(1))} && smart && old_normalizes == some {m2.group(3)} then (if new_normalizes == some {m2.group(4)} then {sid(m2.group(5))} else first) else first", ""]
     body = fn_bodies(lsrc).get("active_injectors", [None])[0]
     m = re.fullmatch(r"\{\s*Arc::strong_count\(&self\.items\)\s*-\s*self\.state\.matcher_item_refs\(\)\s*-\s*\(Arc::ptr_eq\(&self\.snapshot\.items, &self\.items\)\) as usize\s*\}", (body or "").strip())
     if not m:
